@@ -193,3 +193,28 @@ pub fn nested_twin(a: u64, big: Big) -> Result<u64, String> {
     match fallible() { Ok(v) => { m3(); Ok(v + big.a) } Err(e) => { m4(); Err(e) } }
 }
 pub mod generated;
+
+// ---- async-trait style with a qualified path to Box::pin (what macro-generated code writes), and an unboxed async block
+#[instrument]
+pub fn boxed_qualified(a: u64) -> std::pin::Pin<Box<dyn std::future::Future<Output = u64> + Send>> {
+    std::boxed::Box::pin(async move { m1(); let v = helper().await; m2(); a + v })
+}
+pub fn boxed_qualified_twin(a: u64) -> std::pin::Pin<Box<dyn std::future::Future<Output = u64> + Send>> {
+    std::boxed::Box::pin(async move { m1(); let v = helper().await; m2(); a + v })
+}
+
+#[instrument(level = "debug")]
+pub fn boxed_abs(a: u64) -> ::std::pin::Pin<::std::boxed::Box<dyn ::std::future::Future<Output = u64> + Send>> {
+    ::std::boxed::Box::pin(async move { m1(); if cond() { return m3(); } let v = helper().await; m2(); a + v })
+}
+pub fn boxed_abs_twin(a: u64) -> ::std::pin::Pin<::std::boxed::Box<dyn ::std::future::Future<Output = u64> + Send>> {
+    ::std::boxed::Box::pin(async move { m1(); if cond() { return m3(); } let v = helper().await; m2(); a + v })
+}
+
+#[instrument]
+pub fn async_block(a: u64) -> impl std::future::Future<Output = u64> {
+    async move { m1(); let v = helper().await; m2(); a + v }
+}
+pub fn async_block_twin(a: u64) -> impl std::future::Future<Output = u64> {
+    async move { m1(); let v = helper().await; m2(); a + v }
+}
